@@ -40,6 +40,9 @@ Definition next_vol (v : vol) : vol := set_ri_cdi v (ri v + 1) (cdi v ++ [ri v])
 Definition fin_store (st : store) (l : list N) (index : N) : store :=
   mkStore (s_ri st) (s_wi st) (Some l) (s_si st) (idel index (s_items st)).
 
+Ltac ssimpl := cbn [s_ri s_wi s_di s_si s_items put_store next_store fin_store set_ikey set_items
+  ri wi cdi qsize stopped refs closed set_wi_q set_q set_ri_cdi set_cdi set_refs set_stopped unref next_vol fst snd] in *.
+
 Lemma put_store_eq st w x : fst (apply_ops [SetIdx KWi (w + 1); SetItem w x] st) = put_store st w x.
 Proof. reflexivity. Qed.
 
@@ -112,19 +115,19 @@ Lemma put_durable_mono st a w x r :
   (forall i, In i (di_of st) -> i < a) ->
   durable st r -> durable (put_store st w x) r.
 Proof.
-  intros He Hwn Hle Hdi (i & Hb & Hw). rewrite He in Hw. simpl in Hw.
+  intros He Hwn Hle Hdi (i & Hb & Hw). rewrite He in Hw. ssimpl.
   assert (i <> w) by (destruct Hw as [R|Hd]; [lia|specialize (Hdi _ Hd); lia]).
   exists i. split.
-  - unfold put_store; simpl. rewrite iget_iset. destruct (N.eqb_spec i w); [congruence|exact Hb].
-  - rewrite eff_put by exact Hwn. rewrite He. simpl.
+  - unfold put_store; ssimpl. rewrite iget_iset. destruct (N.eqb_spec i w); [congruence|exact Hb].
+  - rewrite eff_put by exact Hwn. rewrite He. ssimpl.
     destruct Hw as [R|Hd]; [left; lia|right; exact Hd].
 Qed.
 
 Lemma put_durable_new st a w x :
   eff st = (a, w) -> (s_wi st = None -> s_ri st = None) -> a <= w -> durable (put_store st w x) x.
 Proof.
-  intros He Hwn Hle. exists w. rewrite eff_put by exact Hwn. rewrite He. simpl. split.
-  - unfold put_store; simpl. now rewrite iget_iset, N.eqb_refl.
+  intros He Hwn Hle. exists w. rewrite eff_put by exact Hwn. rewrite He. ssimpl. split.
+  - unfold put_store; ssimpl. now rewrite iget_iset, N.eqb_refl.
   - left. lia.
 Qed.
 
@@ -134,7 +137,7 @@ Lemma St_put E v outs st x q :
   St E (set_wi_q v (wi v + 1) q) outs (put_store st (wi v) x).
 Proof.
   intros [C G]. destruct C. split.
-  - constructor; simpl; auto.
+  - constructor; ssimpl; auto.
     + rewrite eff_put by exact c_wn0. now rewrite c_eff0.
     + discriminate.
     + lia.
@@ -158,19 +161,19 @@ Lemma St_next E v outs st :
   St E v outs st -> ri v < wi v -> St E (next_vol v) outs (next_store st v).
 Proof.
   intros [C G] Hlt. destruct C. destruct (eff_next st v c_eff0 Hlt) as [En Hw]. split.
-  - constructor; simpl; auto.
+  - constructor; ssimpl; auto.
     + intros H. congruence.
     + lia.
     + intros i Hi. apply in_app_iff in Hi as [Hi|[<-|[]]]; [specialize (c_cdi0 _ Hi)|]; lia.
-    + unfold di_of; simpl. intros i Hi. apply in_app_iff in Hi as [Hi|[<-|[]]]; [specialize (c_cdi0 _ Hi)|]; lia.
+    + unfold di_of; ssimpl. intros i Hi. apply in_app_iff in Hi as [Hi|[<-|[]]]; [specialize (c_cdi0 _ Hi)|]; lia.
     + intros i sz r Hin. destruct (c_out0 i sz r Hin) as [L B]. split; [lia|exact B].
   - apply ghost_ok_mono with (st := st); [|exact G]. intros r (i & Hb & Hw'). left. exists i. split; [exact Hb|].
-    rewrite En. rewrite c_eff0 in Hw'. simpl in *.
+    rewrite En. rewrite c_eff0 in Hw'. ssimpl.
     destruct Hw' as [R|Hd].
     + destruct (N.eqb_spec i (ri v)) as [->|Hne].
-      * right. unfold di_of; simpl. apply in_app_iff. right. now left.
+      * right. unfold di_of; ssimpl. apply in_app_iff. right. now left.
       * left. lia.
-    + right. unfold di_of; simpl. apply in_app_iff. left. apply c_dic0; [exact Hd|congruence].
+    + right. unfold di_of; ssimpl. apply in_app_iff. left. apply c_dic0; [exact Hd|congruence].
 Qed.
 
 Lemma St_handle E v outs st i sz r :
@@ -188,43 +191,37 @@ Lemma St_finish E v outs st index :
   St E (set_cdi v (swap_remove index (cdi v))) outs (fin_store st (swap_remove index (cdi v)) index).
 Proof.
   intros [C G] HF. destruct C. split.
-  - constructor; simpl; auto.
+  - constructor; ssimpl; auto.
     + intros i Hi. apply c_cdi0. eapply swap_remove_incl; eauto.
-    + unfold di_of; simpl. intros i Hi. apply c_cdi0. eapply swap_remove_incl; eauto.
+    + unfold di_of; ssimpl. intros i Hi. apply c_cdi0. eapply swap_remove_incl; eauto.
     + intros i sz r Hin. destruct (c_out0 i sz r Hin) as [L B]. split; [exact L|].
       intros r'. rewrite iget_idel. destruct (N.eqb i index); [discriminate|apply B].
   - apply ghost_ok_mono with (st := st); [|exact G]. intros r (i & Hb & Hw).
     destruct (N.eqb_spec i index) as [->|Hne]; [right; now apply HF|].
     left. exists i. split.
-    + simpl. rewrite iget_idel. destruct (N.eqb_spec i index); [congruence|exact Hb].
+    + ssimpl. rewrite iget_idel. destruct (N.eqb_spec i index); [congruence|exact Hb].
     + rewrite eff_fin. destruct Hw as [R|Hd]; [left; exact R|right].
-      unfold di_of; simpl. apply swap_remove_keep; [|exact Hne]. apply c_dic0; [exact Hd|congruence].
+      unfold di_of; ssimpl. apply swap_remove_keep; [|exact Hne]. apply c_dic0; [exact Hd|congruence].
 Qed.
 
 (* ------------------------------------------------------------------------------------------- *)
 (* wp specs of the queue functions; crash invariant Icr E at every storage-call boundary       *)
 (* ------------------------------------------------------------------------------------------- *)
-Section Specs.
-Variable c : cfg.
-Variable E : list event.
-Hypothesis FH : fin_hand E.
-
 (* putInternal, generically: [P v st] is any relation preserved by the put batch and by the size
    snapshot, and implying the crash invariant *)
-Lemma wp_put (P : vol -> store -> Prop) v st x (Q : vol * bool -> store -> Prop) :
-  P v st ->
-  (forall v' st', P v' st' -> Icr E st') ->
+Lemma wp_put (c : cfg) (I : store -> Prop) (P : vol -> store -> Prop) v st x (Q : vol * bool -> store -> Prop) :
+  (forall v' st', P v' st' -> I st') ->
   (forall v' st' n, P v' st' -> P v' (set_ikey KSi n st')) ->
   (forall q, P (set_wi_q v (wi v + 1) q) (put_store st (wi v) x)) ->
-  Q (v, false) st ->
+  (Z.ltb (capacity c) (qsize v + sizeof c x) = true -> Q (v, false) st) ->
   (forall q st', P (set_wi_q v (wi v + 1) q) st' ->
                  s_items st' = iset (wi v) x (s_items st) ->
                  (forall r, durable (put_store st (wi v) x) r -> durable st' r) ->
                  Q (set_wi_q v (wi v + 1) q, true) st') ->
-  wp (Icr E) (putInternal c v x) st Q.
+  wp I (putInternal c v x) st Q.
 Proof.
-  intros HP HI HSi HPut HQf HQt. unfold putInternal.
-  destruct (Z.ltb (capacity c) (qsize v + sizeof c x)); [exact HQf|].
+  intros HI HSi HPut HQf HQt. unfold putInternal.
+  destruct (Z.ltb (capacity c) (qsize v + sizeof c x)) eqn:Et; [exact (HQf eq_refl)|].
   cbn [wp]. rewrite put_store_eq.
   set (q := (qsize v + sizeof c x)%Z). set (v' := set_wi_q v (wi v + 1) q).
   specialize (HPut q). fold v' in HPut.
@@ -237,6 +234,12 @@ Proof.
     split; [eapply HI; eauto|]. apply HQt; [exact H2|reflexivity|]. intros r Hr. now apply durable_si.
   - apply HQt; auto.
 Qed.
+
+
+Section Specs.
+Variable c : cfg.
+Variable E : list event.
+Hypothesis FH : fin_hand E.
 
 Lemma spec_backup {A} v outs st (k : act A) (Q : A -> store -> Prop) :
   St E v outs st ->
@@ -254,11 +257,11 @@ Lemma spec_put v outs st x :
   wp (Icr E) (putInternal c v x) st
      (fun y st' => St E (fst y) outs st' /\ (snd y = true -> durable st' x)).
 Proof.
-  intros HS. apply (wp_put (fun v' st' => St E v' outs st')); auto.
+  intros HS. apply (wp_put c (Icr E) (fun v' st' => St E v' outs st')); auto.
   - intros v' st' H. eapply St_Icr; eauto.
   - intros v' st' n H. now apply St_si.
   - intros q. now apply St_put.
-  - cbn [fst snd]. split; [exact HS|discriminate].
+  - intros _. cbn [fst snd]. split; [exact HS|discriminate].
   - intros q st' H1 _ H2. cbn [fst snd]. split; [exact H1|]. intros _. apply H2.
     destruct HS as [C _]. destruct C. eapply put_durable_new; eauto.
 Qed.
@@ -273,7 +276,7 @@ Proof.
   change (fst (apply_ops [SetDi (swap_remove index (cdi v)); DelItem index] st))
     with (fin_store st (swap_remove index (cdi v)) index).
   pose proof (St_finish E v outs st index HS HF) as HS'.
-  split; [eapply St_Icr; eauto|]. repeat split; auto; apply HS'.
+  split; [eapply St_Icr; eauto|]. split; [exact HS'|split; reflexivity].
 Qed.
 
 Definition read_post (v : vol) (outs : list handle) (y : vol * option (N * N)) (st' : store) : Prop :=
@@ -298,14 +301,14 @@ Proof.
   split; [eapply St_Icr; eauto|].
   unfold res_body. cbn [nth_error].
   destruct (iget (ri v) (s_items st)) as [r|] eqn:Eb; cbn [option_map].
-  - cbn [wp]. unfold read_post. cbn [fst snd]. repeat split; auto.
+  - cbn [wp]. unfold read_post. cbn [fst snd]. split; [reflexivity|split; [reflexivity|split; [reflexivity|]]].
     intros sz. apply St_handle.
     + eapply St_ext; [| | |exact HS1]; reflexivity.
-    + simpl. lia.
+    + ssimpl. lia.
     + exact Eb.
   - apply wp_bind. eapply wp_mono; [intros s Hs; exact Hs| |apply (spec_finish (next_vol v) outs (next_store st v) (ri v) HS1)].
     + intros v2 st2 (H1 & H2 & H3). cbn [wp]. unfold read_post. cbn [fst snd]. rewrite H2, H3. auto.
-    + simpl. rewrite Eb. discriminate.
+    + ssimpl. rewrite Eb. discriminate.
 Qed.
 
 Definition loop_post (v : vol) (outs : list handle) (y : vol * rres) (st' : store) : Prop :=
@@ -319,9 +322,9 @@ Lemma spec_read_loop fuel : forall v outs st,
   St E v outs st -> wp (Icr E) (read_loop fuel v) st (loop_post v outs).
 Proof.
   induction fuel as [|f IH]; intros v outs st HS; cbn [read_loop].
-  - destruct (N.eqb (ri v) (wi v)); cbn [wp]; unfold loop_post; cbn [fst snd]; repeat split; auto; lia.
+  - destruct (N.eqb (ri v) (wi v)); cbn [wp]; unfold loop_post; cbn [fst snd]; (split; [lia|split; [reflexivity|exact HS]]).
   - destruct (N.eqb_spec (ri v) (wi v)) as [Heq|Hne].
-    + cbn [wp]. unfold loop_post; cbn [fst snd]; repeat split; auto; lia.
+    + cbn [wp]. unfold loop_post; cbn [fst snd]. split; [lia|split; [reflexivity|exact HS]].
     + assert (Hlt : ri v < wi v) by (destruct HS as [C _]; destruct C; lia).
       apply wp_bind. eapply wp_mono; [intros s Hs; exact Hs| |apply (spec_getNext v outs st HS Hlt)].
       intros [v1 o] st1 (H1 & H2 & H3). cbn [fst snd] in *.
@@ -330,10 +333,10 @@ Proof.
         by (unfold v2; destruct (N.eqb (ri v1) (wi v1)); auto).
       destruct E1 as (Er & Ew & Ec).
       destruct o as [[i r]|].
-      * cbn [wp]. unfold loop_post. cbn [fst snd]. destruct H3 as [_ H3]. repeat split; try lia.
+      * cbn [wp]. unfold loop_post. cbn [fst snd]. destruct H3 as [_ H3]. split; [lia|split; [lia|]].
         intros sz. eapply St_ext; [| | |apply (H3 sz)]; auto.
       * eapply wp_mono; [intros s Hs; exact Hs| |apply (IH v2 outs st1)].
-        -- intros [v3 rr] st3 (A1 & A2 & A3). unfold loop_post in *. cbn [fst snd] in *. repeat split; auto; lia.
+        -- intros [v3 rr] st3 (A1 & A2 & A3). unfold loop_post in *. cbn [fst snd] in *. split; [lia|split; [lia|exact A3]].
         -- eapply St_ext; [| | |exact H3]; auto.
 Qed.
 
@@ -386,7 +389,7 @@ Definition RSt (todo : list (N * option val)) (dels : list N) (v : vol) (st : st
 
 Lemma RSt_Icr todo dels v st : RSt todo dels v st -> Icr E st.
 Proof.
-  intros [R G]. destruct R. split; [|auto]. unfold wf_store. rewrite r_eff0. simpl. auto.
+  intros [R G]. destruct R. split; [|auto]. unfold wf_store. rewrite r_eff0. ssimpl. auto.
 Qed.
 
 Lemma RSt_si todo dels v st n : RSt todo dels v st -> RSt todo dels v (set_ikey KSi n st).
@@ -400,7 +403,7 @@ Lemma RSt_put todo dels v st x q :
   RSt todo dels v st -> RSt todo dels (set_wi_q v (wi v + 1) q) (put_store st (wi v) x).
 Proof.
   intros [R G]. destruct R. split.
-  - constructor; simpl; auto.
+  - constructor; ssimpl; auto.
     + rewrite eff_put by exact r_wn0. now rewrite r_eff0.
     + discriminate.
     + lia.
@@ -422,4 +425,353 @@ Proof.
   intros E1 E2 E3 [R G]. split; [|exact G]. destruct R. constructor; rewrite ?E1, ?E2, ?E3; auto.
 Qed.
 
+Lemma RSt_moved i val t dels v st :
+  RSt ((i, val) :: t) dels v st ->
+  (forall r', iget i (s_items st) = Some r' ->
+              exists j, ri v <= j < wi v /\ iget j (s_items st) = Some r') ->
+  RSt t (dels ++ [i]) v st.
+Proof.
+  intros [R G] HB. split; [|exact G]. destruct R.
+  destruct (r_todo0 i val (or_introl eq_refl)) as [Li _].
+  constructor; auto.
+  - intros j Hj Hb. destruct (r_cov0 j Hj Hb) as [H|[H|[H|H]]]; auto.
+    + right; left. apply in_app_iff. now left.
+    + right; left. apply in_app_iff. right. cbn [fst] in H. subst. now left.
+  - intros j val' Hin. apply r_todo0. now right.
+  - intros j r Hj Hb. apply in_app_iff in Hj as [Hj|[<-|[]]]; [now apply (r_dels0 j r)|now apply HB].
+  - intros j Hj. apply in_app_iff in Hj as [Hj|[<-|[]]]; [now apply r_dlt0|exact Li].
+Qed.
+
+Lemma RSt_refused i val t dels v st :
+  RSt ((i, val) :: t) dels v st -> RSt t dels (set_cdi v (cdi v ++ [i])) st.
+Proof.
+  intros [R G]. split; [|exact G]. destruct R.
+  destruct (r_todo0 i val (or_introl eq_refl)) as [Li _].
+  constructor; ssimpl; auto.
+  - intros j Hj. apply in_app_iff in Hj as [Hj|[<-|[]]]; [now apply r_cdi0|exact Li].
+  - intros j Hj Hb. destruct (r_cov0 j Hj Hb) as [H|[H|[H|H]]]; auto.
+    + left. apply in_app_iff. now left.
+    + left. apply in_app_iff. right. subst. now left.
+  - intros j val' Hin. apply r_todo0. now right.
+Qed.
+
+Lemma spec_reenqueue todo : forall v st dels errc,
+  RSt todo dels v st ->
+  wp (Icr E) (reenqueue c v todo dels errc) st (fun y st' => St E (fst y) [] st').
+Proof.
+  induction todo as [|[i val] t IH]; intros v st dels errc HR; cbn [reenqueue].
+  - (* cleanup() *)
+    cbn [wp]. rewrite apply_dels.
+    assert (HS : St E v [] (set_items (del_all dels (s_items st)) st)).
+    { destruct HR as [R G]. destruct R. split.
+      - constructor; auto.
+        + intros j Hj Hb. change (iget j (del_all dels (s_items st)) <> None) in Hb.
+          rewrite iget_del_all in Hb. destruct (existsb (N.eqb j) dels) eqn:Ex; [congruence|].
+          destruct (r_cov0 j Hj Hb) as [H|[H|[]]]; [exact H|].
+          apply existsb_eqb_In in H. congruence.
+        + intros j sz r [].
+      - apply ghost_ok_mono with (st := st); [|exact G]. intros r (j & Hb & Hw). left.
+        destruct (existsb (N.eqb j) dels) eqn:Ex.
+        + apply existsb_eqb_In in Ex. destruct (r_dels0 j r Ex Hb) as (k & Hk & Hbk).
+          exists k. split.
+          * change (iget k (del_all dels (s_items st)) = Some r). rewrite iget_del_all.
+            destruct (existsb (N.eqb k) dels) eqn:Ek; [|exact Hbk].
+            apply existsb_eqb_In in Ek. specialize (r_dlt0 k Ek). lia.
+          * left. change (eff (set_items (del_all dels (s_items st)) st)) with (eff st). rewrite r_eff0. ssimpl. lia.
+        + exists j. split.
+          * change (iget j (del_all dels (s_items st)) = Some r). rewrite iget_del_all, Ex. exact Hb.
+          * exact Hw. }
+    split; [eapply St_Icr; eauto|exact HS].
+  - assert (Hval : val = option_map VBody (iget i (s_items st))).
+    { destruct HR as [R _]. destruct R. now destruct (r_todo0 i val (or_introl eq_refl)). }
+    assert (Skip : iget i (s_items st) = None ->
+                   wp (Icr E) (reenqueue c v t (dels ++ [i]) errc) st (fun y st' => St E (fst y) [] st')).
+    { intros Hn. apply IH. eapply RSt_moved; [exact HR|]. intros r' Hr'. congruence. }
+    destruct (iget i (s_items st)) as [r|] eqn:Eb; cbn [option_map] in Hval; subst val; [|now apply Skip].
+    apply wp_bind.
+    apply (wp_put c (Icr E) (RSt ((i, Some (VBody r)) :: t) dels)); auto.
+    + apply RSt_Icr.
+    + intros v' st' n H. now apply RSt_si.
+    + intros q. now apply RSt_put.
+    + (* refused: keep the stored copy, keep it listed *)
+      intros _. cbn [fst snd]. apply IH. eapply RSt_refused; eauto.
+    + (* accepted: the delete of the old copy joins the cleanup batch *)
+      intros q st' HP Hit _. cbn [fst snd]. apply IH. eapply RSt_moved; [exact HP|].
+      intros r' Hr'. exists (wi v). ssimpl.
+      assert (Li : i < ri v) by (destruct HR as [R _]; destruct R; now destruct (r_todo0 i _ (or_introl eq_refl))).
+      assert (Le : ri v <= wi v) by (destruct HR as [R _]; now destruct R).
+      rewrite Hit in *. rewrite iget_iset in Hr'. destruct (N.eqb_spec i (wi v)); [lia|].
+      rewrite iget_iset, N.eqb_refl. split; [lia|congruence].
+Qed.
+
+Lemma res_idx0 a b : res_idx [option_map VIdx a; b] 0 = a.
+Proof. now destruct a. Qed.
+Lemma res_idx1 a b : res_idx [a; option_map VIdx b] 1 = b.
+Proof. now destruct b. Qed.
+
+Lemma spec_initStorage st :
+  Icr E st ->
+  wp (Icr E) (initStorage c) st (fun v st' => st' = st /\ eff st = (ri v, wi v) /\ cdi v = []).
+Proof.
+  intros HI. unfold initStorage. cbn [wp].
+  change (fst (apply_ops [GetIdx KRi; GetIdx KWi] st)) with st.
+  change (snd (apply_ops [GetIdx KRi; GetIdx KWi] st)) with [option_map VIdx (s_ri st); option_map VIdx (s_wi st)].
+  split; [exact HI|]. rewrite res_idx0, res_idx1.
+  set (rw := match s_ri st with
+             | Some r => match s_wi st with Some w => (r, w) | None => (0, 0) end
+             | None => match s_wi st with Some w => (0, w) | None => (0, 0) end
+             end).
+  assert (Erw : eff st = rw) by (unfold eff, rw; destruct (s_ri st), (s_wi st); reflexivity).
+  destruct rw as [r w].
+  destruct ((0 <? w - r) && negb (reqSized c))%bool.
+  - cbn [wp]. change (fst (apply_ops [GetIdx KSi] st)) with st. split; [exact HI|]. auto.
+  - cbn [wp]. auto.
+Qed.
+
+Lemma in_combine_map {A B} (f : A -> B) (l : list A) a b : In (a, b) (combine l (map f l)) -> In a l /\ b = f a.
+Proof.
+  induction l as [|x l IH]; simpl; [intros []|]. intros [H|H]; [inversion H; subst; auto|].
+  destruct (IH H). auto.
+Qed.
+
+Lemma map_fst_combine_map {A B} (f : A -> B) (l : list A) : map fst (combine l (map f l)) = l.
+Proof. induction l as [|x l IH]; simpl; congruence. Qed.
+
+Lemma spec_retrieve v st :
+  Icr E st -> eff st = (ri v, wi v) -> cdi v = [] ->
+  wp (Icr E) (retrieveAndEnqueue c v) st (fun y st' => St E (fst y) [] st').
+Proof.
+  intros HI He Hc. destruct HI as ((Hle & Hwn & Hdi) & G & _). rewrite He in *. ssimpl.
+  unfold retrieveAndEnqueue. cbn [wp].
+  change (fst (apply_ops [GetDi] st)) with st.
+  change (snd (apply_ops [GetDi] st)) with [option_map VArr (s_di st)].
+  assert (HI : Icr E st).
+  { split; [|auto]. unfold wf_store. rewrite He. ssimpl. auto. }
+  split; [exact HI|].
+  assert (Empty : di_of st = [] -> St E v [] st).
+  { intros Hd. split; [|exact G]. constructor; auto.
+    - rewrite Hc. intros i [].
+    - rewrite Hd. intros i [].
+    - intros i sz r []. }
+  unfold res_arr. cbn [nth_error].
+  destruct (s_di st) as [di|] eqn:Ed; cbn [option_map].
+  2:{ cbn [wp fst]. apply Empty. unfold di_of. now rewrite Ed. }
+  destruct di as [|d0 di'].
+  { cbn [wp fst]. apply Empty. unfold di_of. now rewrite Ed. }
+  set (di := d0 :: di') in *.
+  cbn [wp]. rewrite apply_gets. cbn [fst snd]. split; [exact HI|].
+  apply spec_reenqueue. split; [|exact G].
+  assert (Hdi' : di_of st = di) by (unfold di_of; now rewrite Ed).
+  constructor; auto.
+  - rewrite Hc. intros i [].
+  - intros i Hi Hb. right; right. rewrite map_fst_combine_map. now rewrite <- Hdi'.
+  - intros i val Hin. apply in_combine_map in Hin as [Hin ->]. split; [|reflexivity]. apply Hdi. now rewrite Hdi'.
+  - intros i r [].
+  - intros i [].
+Qed.
+
+Lemma spec_initClient st :
+  Icr E st ->
+  wp (Icr E) (initClient c) st (fun y st' => St E (fst y) [] st').
+Proof.
+  intros HI. unfold initClient. apply wp_bind.
+  eapply wp_mono; [intros s Hs; exact Hs| |apply (spec_initStorage st HI)].
+  intros v st' (-> & He & Hc). now apply spec_retrieve.
+Qed.
+
 End Specs.
+
+(* ------------------------------------------------------------------------------------------- *)
+(* ghost events                                                                                *)
+(* ------------------------------------------------------------------------------------------- *)
+Lemma accepted_app a b : accepted (a ++ b) = accepted a ++ accepted b.
+Proof. unfold accepted. now rewrite flat_map_app. Qed.
+Lemma finals_app a b : finals (a ++ b) = finals a ++ finals b.
+Proof. unfold finals. now rewrite flat_map_app. Qed.
+Lemma handoffs_app a b : handoffs (a ++ b) = handoffs a ++ handoffs b.
+Proof. unfold handoffs. now rewrite flat_map_app. Qed.
+
+Definition hand_ok (E : list event) (outs : list handle) : Prop :=
+  (forall i sz r, In (i, sz, r) outs -> In r (handoffs E)) /\ fin_hand E.
+
+Definition Full (E : list event) (v : vol) (outs : list handle) (st : store) : Prop :=
+  St E v outs st /\ hand_ok E outs.
+
+Lemma Full_Icr E v outs st : Full E v outs st -> Icr E st.
+Proof. intros [HS [_ F]]. eapply St_Icr; eauto. Qed.
+
+Lemma In_remove_nth {A} (k : nat) (l : list A) x : In x (remove_nth k l) -> In x l.
+Proof.
+  revert k. induction l as [|a l IH]; intros k; destruct k; simpl; auto.
+  intros [H|H]; [now left|right; eauto].
+Qed.
+
+Lemma St_evs E E' v outs st :
+  (forall r, In r (accepted E') -> In r (accepted E)) ->
+  (forall r, In r (finals E) -> In r (finals E')) ->
+  St E v outs st -> St E' v outs st.
+Proof.
+  intros HA HFi [C G]. split; [exact C|]. intros r Hr. destruct (G r (HA r Hr)); auto.
+Qed.
+
+(* one operation: Full before => Icr at every boundary, Full after (with the op's events) *)
+Lemma op_spec c E v outs st o :
+  Full E v outs st ->
+  Icr (E ++ pre_events (v, outs) o) st /\
+  wp (Icr (E ++ pre_events (v, outs) o)) (run_op c (v, outs) o) st
+     (fun x st' => Full ((E ++ pre_events (v, outs) o) ++ post_events o (snd x)) (fst (fst x)) (snd (fst x)) st').
+Proof.
+  intros [HS [HO FH]]. destruct o as [x| |k oc|]; cbn [pre_events snd].
+  - (* Offer *)
+    rewrite app_nil_r. split; [eapply St_Icr; eauto|]. cbn [run_op].
+    apply wp_bind. eapply wp_mono; [intros s Hs; exact Hs| |apply (spec_put c E FH v outs st x HS)].
+    intros [v' ok] st' (H1 & H2). cbn [wp fst snd] in *. unfold post_events.
+    destruct ok.
+    + split; [split|split].
+      * apply H1.
+      * intros r Hr. rewrite accepted_app in Hr. rewrite finals_app. cbn in Hr. rewrite app_nil_r.
+        apply in_app_iff in Hr as [Hr|[<-|[]]]; [now apply H1|right; auto].
+      * intros i sz r Hin. rewrite handoffs_app. apply in_app_iff. left. eapply HO; eauto.
+      * intros r. rewrite finals_app, handoffs_app. cbn. rewrite !app_nil_r. apply FH.
+    + rewrite app_nil_r. split; [exact H1|split; auto].
+  - (* Read *)
+    rewrite app_nil_r. split; [eapply St_Icr; eauto|]. cbn [run_op].
+    apply wp_bind. unfold readQ. destruct (stopped v).
+    + cbn [wp fst snd]. unfold post_events. rewrite app_nil_r. split; [exact HS|split; auto].
+    + eapply wp_mono; [intros s Hs; exact Hs| |apply (spec_read_loop E FH _ v outs st HS)].
+      intros [v' rr] st' (_ & _ & H3). cbn [fst snd] in *. destruct rr as [i r| |]; cbn [wp fst snd]; unfold post_events.
+      * split.
+        -- eapply St_evs; [| |apply (H3 (sizeof c r))].
+           ++ intros r0. rewrite accepted_app. cbn. now rewrite app_nil_r.
+           ++ intros r0. rewrite finals_app. cbn. now rewrite app_nil_r.
+        -- split.
+           ++ intros i' sz' r' Hin. rewrite handoffs_app. apply in_app_iff.
+              apply in_app_iff in Hin as [Hin|[Hin|[]]]; [left; eapply HO; eauto|right; inversion Hin; now left].
+           ++ intros r0. rewrite finals_app, handoffs_app. cbn. rewrite app_nil_r. intros H. apply in_app_iff. left. now apply FH.
+      * rewrite app_nil_r. split; [exact H3|split; auto].
+      * rewrite app_nil_r. split; [exact H3|split; auto].
+  - (* Complete *)
+    cbn [run_op].
+    destruct (nth_error outs k) as [[[i sz] r]|] eqn:En.
+    2:{ assert (Ee : E ++ (match oc with OShutdown => [] | _ => [] end) = E) by (destruct oc; apply app_nil_r).
+        rewrite Ee. split; [eapply St_Icr; eauto|]. cbn [wp fst snd]. unfold post_events. rewrite app_nil_r.
+        split; [exact HS|split; auto]. }
+    pose proof (nth_error_In _ _ En) as Hin.
+    set (E1 := E ++ match oc with OShutdown => [] | _ => [EvFinal r] end).
+    assert (HA : forall r0, In r0 (accepted E1) -> In r0 (accepted E)).
+    { intros r0. unfold E1. rewrite accepted_app. destruct oc; cbn; now rewrite app_nil_r. }
+    assert (HFi : forall r0, In r0 (finals E) -> In r0 (finals E1)).
+    { intros r0 H. unfold E1. rewrite finals_app. apply in_app_iff. now left. }
+    assert (HS1 : St E1 v outs st) by (eapply St_evs; eauto).
+    assert (FH1 : fin_hand E1).
+    { intros r0. unfold E1. rewrite finals_app, handoffs_app. intros H. apply in_app_iff in H as [H|H].
+      - apply in_app_iff. left. now apply FH.
+      - apply in_app_iff. left. destruct oc; cbn in H; try (destruct H as [<-|[]]; eapply HO; eauto). destruct H. }
+    assert (HO1 : forall i' sz' r', In (i', sz', r') outs -> In r' (handoffs E1)).
+    { intros i' sz' r' H. unfold E1. rewrite handoffs_app. apply in_app_iff. left. eapply HO; eauto. }
+    replace (E ++ match oc with OShutdown => [] | _ => [EvFinal r] end) with E1 by reflexivity.
+    replace (E ++ match oc with OOk => [EvFinal r] | OFailed => [EvFinal r] | OShutdown => [] end) with E1
+      by (unfold E1; destruct oc; reflexivity).
+    split; [eapply St_Icr; eauto|].
+    apply wp_bind. eapply wp_mono; [intros s Hs; exact Hs| |apply (spec_onDone c E1 FH1 v outs st i sz oc HS1)].
+    + intros v' st' H'. cbn [wp fst snd]. unfold post_events. rewrite app_nil_r. split.
+      * eapply St_outs; [|exact H']. intros y Hy. eapply In_remove_nth; eauto.
+      * split; [|exact FH1]. intros i' sz' r' H. apply (HO1 i' sz' r'). eapply In_remove_nth; eauto.
+    + intros Hoc r0 Hb. destruct HS as [C _]. destruct (c_out _ _ _ C i sz r Hin) as [_ B].
+      rewrite (B r0 Hb). unfold E1. rewrite finals_app. apply in_app_iff. right. destruct oc; try (now left). congruence.
+  - (* Shutdown *)
+    rewrite app_nil_r. split; [eapply St_Icr; eauto|]. cbn [run_op].
+    apply wp_bind. unfold shutdownQ.
+    eapply (spec_backup c E FH v outs st); [exact HS|].
+    intros st' H'. cbn [wp fst snd]. unfold post_events. rewrite app_nil_r.
+    split; [|split; auto]. eapply St_ext; [| | |exact H']; reflexivity.
+Qed.
+
+(* a script under ANY budget: the crash invariant holds wherever it stops *)
+Lemma script_inv c ops : forall b st v outs pre evs obs,
+  Full (pre ++ evs) v outs st ->
+  Icr (pre ++ i_events (run_script c b st (v, outs) ops evs obs))
+      (i_store (run_script c b st (v, outs) ops evs obs)).
+Proof.
+  induction ops as [|o ops IH]; intros b st v outs pre evs obs HF; cbn [run_script].
+  - cbn [i_events i_store]. eapply Full_Icr; eauto.
+  - destruct (op_spec c (pre ++ evs) v outs st o HF) as [HI HW].
+    pose proof (wp_run _ _ st _ b HI HW) as HR.
+    destruct (run_act b st (run_op c (v, outs) o)) as [[st1 b1] [[[v1 outs1] r]|]].
+    + cbn [fst snd] in HR. apply IH. rewrite !app_assoc. exact HR.
+    + cbn [i_events i_store]. rewrite app_assoc. exact HR.
+Qed.
+
+(* one incarnation (recovery + script) under ANY budget *)
+Lemma incarnation_inv c st sc b pre :
+  Icr pre st ->
+  Icr (pre ++ i_events (incarnation c st sc b)) (i_store (incarnation c st sc b)).
+Proof.
+  intros HI. unfold incarnation.
+  assert (FH : fin_hand pre) by apply HI.
+  pose proof (wp_run _ _ st _ b HI (spec_initClient c pre FH st HI)) as HR.
+  destruct (run_act b st (initClient c)) as [[st1 b1] [[v errc]|]].
+  - cbn [fst] in HR. apply script_inv. rewrite app_nil_r. split; [exact HR|]. split; [intros i sz r []|exact FH].
+  - cbn [i_events i_store]. now rewrite app_nil_r.
+Qed.
+
+Lemma history_inv c h : forall st pre,
+  Icr pre st ->
+  Icr (pre ++ snd (run_history c st h)) (fst (run_history c st h)).
+Proof.
+  induction h as [|[sc b] t IH]; intros st pre HI; cbn [run_history].
+  - cbn [fst snd]. now rewrite app_nil_r.
+  - pose proof (incarnation_inv c st sc b pre HI) as H1.
+    specialize (IH _ _ H1).
+    destruct (run_history c (i_store (incarnation c st sc b)) t) as [st' evs]. cbn [fst snd] in *.
+    now rewrite app_assoc.
+Qed.
+
+Lemma Icr_store0 : Icr [] store0.
+Proof.
+  split; [|split].
+  - unfold wf_store, eff. simpl. split; [lia|split; [auto|intros i []]].
+  - intros r [].
+  - intros r [].
+Qed.
+
+(* the second sentence of the property *)
+Lemma durable_or_final_l c h :
+  forall r, In r (accepted (snd (run_history c store0 h))) ->
+            In r (finals (snd (run_history c store0 h))) \/ durable (fst (run_history c store0 h)) r.
+Proof.
+  pose proof (history_inv c h store0 [] Icr_store0) as (_ & G & _). exact G.
+Qed.
+
+Lemma durable_or_final_wf_l c st0 h : wf_store st0 ->
+  forall r, In r (accepted (snd (run_history c st0 h))) ->
+            In r (finals (snd (run_history c st0 h))) \/ durable (fst (run_history c st0 h)) r.
+Proof.
+  intros W. assert (HI : Icr [] st0) by (split; [exact W|split; intros r []]).
+  pose proof (history_inv c h st0 [] HI) as (_ & G & _). exact G.
+Qed.
+
+Lemma final_was_handed_l c h :
+  forall r, In r (finals (snd (run_history c store0 h))) -> In r (handoffs (snd (run_history c store0 h))).
+Proof.
+  pose proof (history_inv c h store0 [] Icr_store0) as (_ & _ & F). exact F.
+Qed.
+
+Lemma store_wf_l c h : wf_store (fst (run_history c store0 h)).
+Proof. pose proof (history_inv c h store0 [] Icr_store0) as (W & _). exact W. Qed.
+
+(* a completion with a shutdown error performs no storage call at all *)
+Lemma shutdown_keeps_l c v outs k b st :
+  exists s', run_act b st (run_op c (v, outs) (Complete k OShutdown)) = (st, b, Some (s', RComplete (match nth_error outs k with Some _ => true | None => false end))).
+Proof.
+  cbn [run_op]. destruct (nth_error outs k) as [[[i sz] r]|]; cbn; eauto.
+Qed.
+
+(* if nothing is durable any more, every accepted request has been handed off *)
+Lemma drained_all_handed_l c h :
+  (forall r, ~ durable (fst (run_history c store0 h)) r) ->
+  forall r, In r (accepted (snd (run_history c store0 h))) -> In r (handoffs (snd (run_history c store0 h))).
+Proof.
+  intros Hn r Hr. destruct (durable_or_final_l c h r Hr) as [F|D]; [now apply final_was_handed_l|].
+  destruct (Hn r D).
+Qed.
